@@ -48,8 +48,8 @@ def digest(s):
 
 
 CHILD = r"""
-import sys, json, hashlib, random
-sys.path.insert(0, '/verif'); sys.path.insert(0, '/repo')
+import os, sys, json, hashlib, random
+sys.path.insert(0, '/verif'); sys.path.insert(0, os.environ.get('VERIF_REPO', '/repo'))
 from vf import core; core.quiet_androguard()
 junk = [object() for _ in range(int(sys.argv[3]))]          # shift the allocation pattern
 from androguard.core import dex
@@ -67,6 +67,16 @@ for n in order:
     except Exception as e:
         s = 'EXC ' + type(e).__name__
     out[n] = hashlib.sha1(s.encode('utf-8', 'surrogatepass')).hexdigest()[:12]
+# class level (DvClass.get_source): header, fields, method order
+ncls = int(sys.argv[5])
+classes = sorted(d.get_classes(), key=lambda c: (-len(c.get_interfaces() or []), c.get_name()))[:ncls]
+random.Random(int(sys.argv[4]) + 1).shuffle(classes)
+for c in classes:
+    try:
+        z = decompile.DvClass(c, dx); z.process(); s = z.get_source()
+    except Exception as e:
+        s = 'EXC ' + type(e).__name__
+    out['class:' + c.get_name()] = hashlib.sha1(s.encode('utf-8', 'surrogatepass')).hexdigest()[:12]
 json.dump(out, sys.stdout)
 """
 
@@ -136,15 +146,15 @@ def run(chk):
         procs = []
         for k in range(3 if quick else 6):
             env = dict(os.environ, PYTHONHASHSEED=str(1 + 17 * k))
-            procs.append(subprocess.Popen([sys.executable, "-c", CHILD, path, nf, str(1000 * k + 13), str(k)], stdout=subprocess.PIPE, env=env, text=True))
+            procs.append(subprocess.Popen([sys.executable, "-c", CHILD, path, nf, str(1000 * k + 13), str(k), str(30 if quick else 400)], stdout=subprocess.PIPE, env=env, text=True))
         for p in procs:
             o, _ = p.communicate(timeout=3000)
             outs.append(json.loads(o))
     finally:
         import shutil
         shutil.rmtree(work, ignore_errors=True)
-    for nme in names:
-        recs.append(dict(id="process:" + nme, runs=[o[nme] for o in outs], src="shipped-process", edges=[], texts=[]))
+    for nme in names + sorted(k for k in outs[0] if k.startswith("class:")):
+        recs.append(dict(id="process:" + nme, runs=[o[nme] for o in outs], src="shipped-process-class" if nme.startswith("class:") else "shipped-process", edges=[], texts=[]))
     res = tlc.validate("Determinism_Trace", "Determinism_Trace.cfg", [dict(id=r_["id"], runs=r_["runs"]) for r_ in recs], shards=8, heap="2g")
     chk.trace_result(res, "Determinism_Trace")
     chk.c2s -= res["accepted"]
